@@ -89,3 +89,51 @@ Theorem C04_marginal_of_histogram : forall sh keys a, positive_shape sh -> 1 < l
   q_sum_axis (hist sh keys) a = hist (remove_axis a sh) (map (remove_axis a) keys).
 Proof. exact marg_hist. Qed.
 Print Assumptions C04_marginal_of_histogram.
+
+(* ---- beyond the rationals: spectra holding infinities and NaN (Model/Ext.v). A marginal cell is the IEEE sum, in axis
+   order, of the entries along the removed axis: a NaN is carried along, so is an infinity, opposite infinities give NaN,
+   nothing is dropped; on finite spectra this is the rational model above. *)
+From Sfs Require Import Ext ExtP.
+Theorem C04_ext_sum_axis_spec : forall (x : espectrum) a idx',
+  wf x -> positive_shape (ashape x) -> a < dimensions x -> inb (remove_axis a (ashape x)) idx' = true ->
+  get (e_sum_axis x a) idx' = Some (ev_sum (map (fun i => getd ev_zero x (insert_axis a i idx')) (seq 0 (nth a (ashape x) 0)))).
+Proof. exact e_sum_axis_spec. Qed.
+Print Assumptions C04_ext_sum_axis_spec.
+
+Theorem C04_ext_sum_finite : forall l : list Qc, ev_sum (map Fin l) = Fin (qsum l).
+Proof. exact ev_sum_fin. Qed.
+Print Assumptions C04_ext_sum_finite.
+
+Theorem C04_ext_sum_nan : forall l, In NaN l -> ev_sum l = NaN.
+Proof. exact ev_sum_nan. Qed.
+Print Assumptions C04_ext_sum_nan.
+
+Theorem C04_ext_sum_pinf : forall l, In PInf l -> ~ In NInf l -> ~ In NaN l -> ev_sum l = PInf.
+Proof. exact ev_sum_pinf. Qed.
+Print Assumptions C04_ext_sum_pinf.
+
+Theorem C04_ext_sum_ninf : forall l, In NInf l -> ~ In PInf l -> ~ In NaN l -> ev_sum l = NInf.
+Proof. exact ev_sum_ninf. Qed.
+Print Assumptions C04_ext_sum_ninf.
+
+Theorem C04_ext_sum_opposite : forall l, In PInf l -> In NInf l -> ev_sum l = NaN.
+Proof. exact ev_sum_opposite. Qed.
+Print Assumptions C04_ext_sum_opposite.
+
+Theorem C04_ext_nan_never_dropped : forall (x : espectrum) a idx' i,
+  wf x -> positive_shape (ashape x) -> a < dimensions x -> inb (remove_axis a (ashape x)) idx' = true ->
+  i < nth a (ashape x) 0 -> getd ev_zero x (insert_axis a i idx') = NaN ->
+  get (e_sum_axis x a) idx' = Some NaN.
+Proof. exact e_sum_axis_nan. Qed.
+Print Assumptions C04_ext_nan_never_dropped.
+
+Theorem C04_ext_marginalize_on_finite : forall (x : spectrum) axes,
+  e_marginalize (embed x) axes = match marginalize x axes with inl y => inl (embed y) | inr e => inr e end.
+Proof. exact e_marginalize_embed. Qed.
+Print Assumptions C04_ext_marginalize_on_finite.
+
+Example C04_ext_example :
+  let q (z : Z) := Fin (Q2Qc (z # 1)) in
+  adata (e_sum_axis {| adata := [q 1%Z; PInf; q 3%Z; q 4%Z; NInf; NaN]; ashape := [2; 3] |} 0) = [q 5%Z; NaN; NaN] /\
+  adata (e_sum_axis {| adata := [q 1%Z; PInf; q 3%Z; q 4%Z; NInf; NaN]; ashape := [2; 3] |} 1) = [PInf; NaN].
+Proof. cbv zeta. split; vm_compute; reflexivity. Qed.
